@@ -18,7 +18,20 @@ from sx.values import SymReal, term_of
 
 PROPERTY = "C18"
 
+BATTERY = {
+    # concrete geometry that looks empty to one criterion but paints (replay only)
+    "quad": [
+        [2, 2, 14, 2, 2, 14, 14, 14],  # balanced bow-tie: signed area 0, paints 2 triangles
+        [0, 0, 10, 0, 10, 10, 0, 10],
+    ],
+    "closed": [[0, 0, 10, 0, 5, 8], [0, 0, 10, 0, 20, 0]],
+    "two": [[0, 0, 10, 0, 5, 8, 0, 0, 10, 0, 5, 8], [0, 0, 10, 0, 5, 8, 0, 0, 5, 8, 10, 0]],
+    "curve": [[0, 0, 10, 10, 0, 10, 10, 0]],
+    "seg": [[0, 0, 10, 0]],
+}
+
 SKELETONS = {
+    "quad": "MLLLZ",
     "move": "M",
     "moves": "MM",
     "seg": "ML",
@@ -71,6 +84,10 @@ def area_var(h, cmds, fill_rule):
     reg = FP._registry()
     atoms = regions.Atoms(h.ctx)
     for cand, a in reg.get("area_terms", []):
+        # only the area of the *simplified* region is the painted area; Skia's
+        # area of an unsimplified (possibly self-intersecting) path is a signed sum
+        if cand.kind != "simplify" and not cand.is_simple():
+            continue
         inner = cand.args[0] if cand.kind == "simplify" else cand
         if inner.kind == "leaf" and t.kind == "leaf":
             if inner.args[0] == t.args[0] and inner.args[1] == t.args[1] and atoms._coords_equal(inner.args[2], t.args[2]):
@@ -334,7 +351,7 @@ def make_remove_unpainted(case):
 
 def cases(tier, seed):
     cs = []
-    skels = ["move", "seg", "closed", "two"] if tier == "quick" else list(SKELETONS)
+    skels = ["move", "seg", "closed", "two", "quad"] if tier == "quick" else list(SKELETONS)
     for sk, fill, stroke, disp in itertools.product(skels, FILLS, STROKES, DISPLAYS):
         wheres = ["attr", "style"] if tier == "quick" else WHERE
         for where in wheres:
@@ -385,7 +402,25 @@ def finding_key(case, failure):
 
 
 def replay(case, failure):
-    return replay_concrete(harness_for(case), failure)
+    rep = replay_concrete(harness_for(case), failure)
+    if rep.get("reproduced") or case["kind"] != "might_paint":
+        return rep
+    # the abstract area says "the implementation asked Skia about something other
+    # than the painted region": confirm on concrete shapes that look empty to one
+    # criterion only (numbers of the witness are irrelevant for that)
+    for coords in BATTERY.get(case["skel"], []):
+        f2 = dict(failure)
+        inp = dict(failure["inputs"])
+        for i, v in enumerate(coords):
+            inp[f"c{i}"] = str(v)
+        for k, v in (("opacity", "1"), ("fill_opacity", "1"), ("stroke_opacity", "1"), ("stroke_width", "1")):
+            inp[k] = v
+        f2["inputs"] = inp
+        r2 = replay_concrete(harness_for(case), f2)
+        if r2.get("reproduced"):
+            r2["detail"] = "battery shape " + str(coords) + ": " + r2["detail"]
+            return r2
+    return rep
 
 
 def describe(tier):
